@@ -100,6 +100,11 @@ def prepare_base(workdir: Path, seed: int):
     return True
 
 
+def task_fn(x, offset):
+    """Work item of the ``tasks`` driver (module level: sent to pool workers by reference)."""
+    return (int(x), int(x) * int(x) + offset)
+
+
 def run_driver(name, params, workdir):
     """Executed on every rank (and in the reference server)."""
     import pandas as pd
@@ -158,6 +163,14 @@ def run_driver(name, params, workdir):
             return dict(all=h(np.sort(rows, order=list(rows.dtype.names)).tobytes()), n=int(len(rows)), keys=[int(k) for k in cat.keys()],
                         partition_reproduced=ok)
         return catalog_digest(cat)
+
+    if name == "tasks":
+        # the task iterator itself, with its documented options (worker limit, root's node only)
+        from yaw.utils import parallel
+
+        got = list(parallel.iter_unordered(task_fn, list(range(params["n"])), func_args=(3,), max_workers=mw,
+                                           rank0_node_only=bool(params.get("node_only"))))
+        return dict(results=sorted(got), count=len(got))
 
     base = workdir / "base"
     if name == "reopen":
